@@ -299,3 +299,68 @@ def extra_stage(R, tier, rng, counter):
                     return val(c[np.array(keys, dtype=kdt)])
                 R.record(f"signed-samples Counter({kdt} {keys}, mod={mod}).count({sdt} {samples})", guarded(cnt), kl([0, 2, 0, 1]), kl([0, 2, 0, 1]), True, "count/signed-samples-unsigned-keys",
                          py=f"c = Counter(np.array({keys}, dtype='{kdt}'), mod={mod}); c.count(np.array({samples}, dtype='{sdt}')); c[keys]")
+
+
+def big_stage(R, tier, rng, counter):
+    """tables and batches beyond any plausible size threshold (hundreds to thousands of keys, queries and samples in arbitrary order with
+    repeats, non-keys in empty buckets, sparse later batches), compared with the dictionary"""
+    import numpy as np
+    from npstructures import HashTable, Counter
+    def val(x): return kl(np.asarray(x))
+    A = lambda l: np.array(l, dtype=np.int64)
+    reps = 3 if tier == "thorough" else 1
+    for rep in range(reps):
+        for nk, mod in ((60, None), (700, None), (1500, 701), (2100, None), (700, 97)):
+            keys = rng.sample(range(-5000, 20000), nk)
+            keyset = set(keys)
+            absent = [x for x in rng.sample(range(-6000, 30000), 400) if x not in keyset]
+            tag = f"nk={nk} mod={mod} rep={rep}"
+            if not counter:
+                vals = [rng.randint(-10 ** 6, 10 ** 6) for _ in keys]
+                d = dict(zip(keys, vals))
+                for nq in (513, 600, 2000, 5000):
+                    q = [rng.choice(keys) for _ in range(nq)]
+                    def look():
+                        t = HashTable(A(keys), A(vals), mod=mod); return val(t[A(q)])
+                    e = kl([d[k] for k in q])
+                    R.record(f"big-lookup {tag} nq={nq}", guarded(look), e, e, True, "big/lookup-random-order",
+                             py=f"keys={keys!r}; vals={vals!r}; q={q!r}; HashTable(keys, vals, mod={mod})[q]")
+                    qa = rng.sample(keys, min(nq, nk)); va = [rng.randint(-99, 99) for _ in qa]
+                    def assign():
+                        t = HashTable(A(keys), A(vals), mod=mod); t[A(qa)] = A(va); return val(t[A(keys)])
+                    d2 = dict(d); d2.update(zip(qa, va)); e2 = kl([d2[k] for k in keys])
+                    R.record(f"big-assign {tag} n={len(qa)}", guarded(assign), e2, e2, True, "big/assign-random-order",
+                             py=f"keys={keys!r}; vals={vals!r}; q={qa!r}; v={va!r}; t=HashTable(keys, vals, mod={mod}); t[q]=v; t[keys]")
+                def absent_q():
+                    t = HashTable(A(keys), A(vals), mod=mod)
+                    try: t[A([rng.choice(keys) for _ in range(700)] + [absent[0]])]; return "accepted"
+                    except Exception: return "refused"
+                R.record(f"big-lookup-absent {tag}", guarded(absent_q), "refused", "refused", True, "big/lookup-absent",
+                         py=f"keys={keys!r}; HashTable(keys, ..., mod={mod})[700 keys + [{absent[0]}]]")
+                def cont():
+                    t = HashTable(A(keys), A(vals), mod=mod); qq = keys[:300] + absent[:300]
+                    return val(t.contains(A(qq)))
+                ec = kl([True] * len(keys[:300]) + [False] * len(absent[:300]))
+                R.record(f"big-contains {tag}", guarded(cont), ec, ec, True, "big/contains",
+                         py=f"keys={keys!r}; HashTable(keys, ..., mod={mod}).contains(keys[:300] + {absent[:300]!r})")
+            else:
+                for init_kind in ("default", "scalar", "array"):
+                    init = {"default": None, "scalar": 3, "array": [rng.randint(0, 9) for _ in keys]}[init_kind]
+                    base = dict(zip(keys, init if isinstance(init, list) else [init or 0] * nk))
+                    # batches: a big one (> 4096 samples, keys + non-keys, few distinct values so that repeats dominate), a sparse one with repeats, a medium one
+                    hot = rng.sample(keys, 5) + absent[:3]
+                    b1 = [rng.choice(hot) for _ in range(5200)] + [rng.choice(keys + absent) for _ in range(300)]; rng.shuffle(b1)
+                    b2 = [keys[-1]] * 3 + [absent[5], keys[1]]
+                    b3 = [rng.choice(keys + absent[:50]) for _ in range(900)]
+                    for order in ((b1, b2, b3), (b2, b3, b1), (b3, b2, b2, b1)):
+                        def cnt():
+                            c = Counter(A(keys), mod=mod) if init is None else Counter(A(keys), (A(init) if isinstance(init, list) else init), mod=mod)
+                            out = []
+                            for b in order:
+                                c.count(A(b)); out.append(val(c[A(keys)]))
+                            return out
+                        tot = collections.Counter(); e = []
+                        for b in order:
+                            tot.update(x for x in b if x in keyset); e.append(kl([base[k] + tot[k] for k in keys]))
+                        R.record(f"big-count {tag} init={init_kind} batches={[len(b) for b in order]}", guarded(cnt), e, e, True, "big/count-batches",
+                                 py=f"keys={keys!r}; init={init!r}; batches={[list(b) for b in order]!r}; c=Counter(keys, init, mod={mod}); for b in batches: c.count(b); c[keys]")
